@@ -96,7 +96,8 @@ int sm4_cfb_encrypt_update(SM4_CFB_CTX *ctx,
 		return -1;
 	}
 	if (!out) {
-		*outlen = 16 * ((inlen + 15)/16);
+		// up to sbytes - 1 buffered bytes may be flushed together with the input
+		*outlen = inlen + SM4_BLOCK_SIZE;
 		return 1;
 	}
 	if (ctx->block_nbytes >= ctx->sbytes) {
@@ -183,7 +184,8 @@ int sm4_cfb_decrypt_update(SM4_CFB_CTX *ctx,
 		return -1;
 	}
 	if (!out) {
-		*outlen = 16 * ((inlen + 15)/16);
+		// up to sbytes - 1 buffered bytes may be flushed together with the input
+		*outlen = inlen + SM4_BLOCK_SIZE;
 		return 1;
 	}
 	if (ctx->block_nbytes >= ctx->sbytes) {
